@@ -20,6 +20,19 @@ CLAIMED = {
         note="Trusted: TLC, the signed-index abstraction (kernels never branch on data; re-checked by a random second probe), "
              "numpy refmodel for N>nfull sampled positions. N>1024 not every p executed.",
         technique="TLA+ code-shaped model checked exhaustively with TLC + TLC trace validation of recorded kernel observations"),
+    "C05": dict(
+        category="model_checking",
+        text="TLC enumerates the code-shaped limb loop of Normalize.tla (carry-only / normalise / last-limb / zero-extend, "
+             "primitive with and without carry-in, in place and out of place) for every k, size pair (0 included) and limb value of "
+             "a box and checks final digits = unique balanced expansion, exactly res_size limbs written, source kept, no "
+             "out-of-range limb, termination; primitive identity, uniqueness and sub-range slicing as ASSUMEs. Every enumerated "
+             "case is replayed on vec_znx_normalize_base2k (FFT64/NTT120 modules), the big and sub-range variants with exact-size "
+             "canary buffers; 62-bit columns for every k in 1..62 (carry ripples, boundary digits) and the six primitive shapes are "
+             "recorded and re-computed by TLC on Wide integers.",
+        design_ref="DESIGN.md section 4 C05",
+        note="Trusted: TLC, Wide.tla (self-tested against Python integers), column independence of the kernels. Values beyond "
+             "2^62 are outside the documented domain and not generated.",
+        technique="TLA+ code-shaped model checked exhaustively with TLC + replay of generated cases + TLC trace validation on bignum (Wide) arithmetic"),
 }
 
 NOT_YET = "check not built yet in this session (planned, see DESIGN.md section 8)"
